@@ -244,10 +244,14 @@ class Interp:
             return self._judge_run(i, inst, selected, [], val, exc, ex, f"executor({sel}).setup() on instance {i}", setup_only=True)
         if k == "mkexec":
             try:
-                e = inst.b.dag.executor(**self._kw(inst, op.get("sel")))
+                kw_ = self._kw(inst, op.get("sel"))
+                if op.get("bad_cache"):
+                    # a cache file in a directory that does not exist: the nodes run, writing the file then fails
+                    kw_["cache_in"] = os.path.join(os.sep, "nonexistent-vlib-dir", "cache.pkl")
+                e = inst.b.dag.executor(**kw_)
             except BaseException as err:  # noqa: BLE001
                 return [("op-raised", f"executor({op.get('sel')}) raised {type(err).__name__}: {err}")]
-            self.execs.append({"e": e, "inst": i, "sel": op.get("sel"), "runs": 0, "failed": False})
+            self.execs.append({"e": e, "inst": i, "sel": op.get("sel"), "runs": 0, "failed": False, "bad_cache": bool(op.get("bad_cache"))})
             return []
         if k == "config":
             conf: Dict[str, Any] = {"nodes": {s.lstrip(prog.MARK): c for s, c in (op.get("conf") or {}).items()}}
@@ -266,6 +270,17 @@ class Interp:
             draw_quietly(inst.b.dag, bool(op.get("include_args")))
             return []
         raise ValueError(k)
+
+    def _absorb_setup(self, i: int, inst: Inst, selected: Optional[set], args: List[Any]) -> None:
+        """After a run whose nodes all succeeded: the setup results it computed now belong to the instance."""
+        R = prog.Ref(selected=selected, pre=dict(inst.pre), op=self.n, lenient_missing=True)
+        try:
+            prog.ref_run(self.P, [dec(a) for a in args], R)
+        except Exception:  # noqa: BLE001
+            return
+        for s in R.executed:
+            if self.M.spec[s].get("setup"):
+                inst.pre[s] = R.values[s]
 
     def _cancelrun(self, op: Dict[str, Any]) -> List[Finding]:
         """First run of an AsyncDAGExecution inside a task that is cancelled as soon as one node has finished: a
@@ -325,6 +340,15 @@ class Interp:
         first = rec["runs"] == 0
         rec["runs"] += 1
         what = f"executor #{op['e']} ({rec['sel']}) run no. {rec['runs']} with {args}" + (" after a failed run" if rec["failed"] else "")
+        if first and rec.get("bad_cache") and isinstance(exc, OSError):
+            # the run itself may have been fine, the cache file could not be written: a failed run like any other
+            rec["failed"] = True
+            self.stats["cache-write-failed"] += 1
+            for s in self._entries(ex):
+                if self.M.spec.get(s, {}).get("setup") and self.count_entries and self.cumulative:
+                    self.setup_entries[(rec["inst"], s)] = self.setup_entries.get((rec["inst"], s), 0) + 1
+            self._absorb_setup(rec["inst"], inst, selected, args)
+            return []
         if first:
             out = self._judge_run(rec["inst"], inst, selected, args, val, exc, ex, what, sel=rec["sel"])
             if exc is not None:
